@@ -3,6 +3,7 @@ import AmaranthVerif.Model.Rtlil.Parse
 import AmaranthVerif.Model.Rtlil.WF
 import AmaranthVerif.Model.Rtlil.Eval
 import AmaranthVerif.Model.Rtlil.EmitExpr
+import AmaranthVerif.Model.Rtlil.EmitCtx
 import AmaranthVerif.Driver.ExprIO
 
 /-! # Driver `amodel_c04` (unverified I/O glue around Model/Rtlil/{Parse,WF,Eval})
@@ -127,13 +128,10 @@ def cellHist (r : Res) : String :=
 def handleEmit (ctx : Amaranth.Ctx) (e : Expr) (envs : List Amaranth.Env) : String :=
   let st0 := EmitState.init ctx
   let r := emitE ctx e st0.next
-  let widths := (st0.wires ++ r.wires).foldl (fun (m : Std.HashMap String Nat) w => m.insert w.1 w.2) {}
-  let rc : Rtlil.Ctx := ⟨widths, false, false⟩
+  let rc : Rtlil.Ctx := emitCtx (st0.wires ++ r.wires) false
   let w := widthOf ctx e
   let ev := envs.map fun env =>
-    let renv : Rtlil.Env := (List.range ctx.length).foldl
-      (fun (m : Rtlil.Env) i => m.insert (sigName i) (mask (ctx.shape i).width (env.val i)).toNat) {}
-    match evalNodes rc {} r.nodes renv with
+    match evalNodes rc {} r.nodes (sigEnv ctx env) with
     | .ok renv' => toString (specVal rc renv' (emitSpec r.val))
     | .error msg => "error:" ++ clean msg
   let rtl := envs.map fun env => toString (mask w (evalRtl ctx env e)).toNat
